@@ -22,6 +22,7 @@ var verifTestCalls []verifTestCall
 type verifTestCall struct {
 	outcome int // 0 no match, 1 match, 2 error
 	args    []string
+	match   string
 }
 
 func init() {
@@ -32,10 +33,14 @@ func init() {
 			t, _ := types.ToXText(env, a)
 			call.args = append(call.args, t.Native())
 		}
+		if o == 1 && zzverif.Choice("match-text-empty", 2) == 0 {
+			// (a test may match with an empty match text: has_pattern with a pattern matching "", has_phrase with an empty phrase)
+			call.match = "match" + string(rune('0'+len(verifTestCalls)))
+		}
 		verifTestCalls = append(verifTestCalls, call)
 		switch o {
 		case 1:
-			return cases.NewTrueResult(types.NewXText("match" + string(rune('0'+len(verifTestCalls)-1))))
+			return cases.NewTrueResult(types.NewXText(call.match))
 		case 2:
 			return types.NewXErrorf("stub test error")
 		}
@@ -49,10 +54,10 @@ func init() {
 // outcomes (no match / match / error), localized case arguments of the same
 // or a different length: the run leaves by the exit of the category of the
 // first matching case, else the default's, else fails; the saved result has
-// that category's name, the match (operand for the default) as value and the
+// that category's name, the test's match text — possibly empty — (operand for the default) as value and the
 // operand as input; a timeout resume leaves by the timeout category; the
 // step's exit, the returned exit and the logged segment agree.
-// cover: first-case, later-case, default, no-category, timeout, result-saved, test-error, localized-args, mismatched-args, evaluated-args
+// cover: first-case, later-case, default, no-category, timeout, result-saved, test-error, localized-args, mismatched-args, evaluated-args, empty-match
 func VerifC07_Switch() {
 	ncases := 1 + zzverif.Choice("ncases", 3)
 	ncats := 3
@@ -145,7 +150,10 @@ func VerifC07_Switch() {
 			if k < len(verifTestCalls) {
 				if verifTestCalls[k].outcome == 1 {
 					wantCat = int(caseCat[k])
-					wantMatch = "match" + string(rune('0'+k))
+					wantMatch = verifTestCalls[k].match
+					if wantMatch == "" {
+						zzverif.Cover("empty-match")
+					}
 					if k == 0 {
 						zzverif.Cover("first-case")
 					} else {
